@@ -24,7 +24,8 @@ def variants(rings=None, names=("c",)):
     vs += [{"host": "queued", "family": "spied", "drive": "queue", "clear_after": 1, "live_trace": True},
            {"host": "queued", "family": "spied", "drive": "dispatch", "clear_after": 0}]
     if rings:
-        vs = [dict(v, rings=rings) for v in vs]
+        # with a small ring the user also reads trace() after every step (not only at the end)
+        vs = [dict(v, rings=rings) for v in vs] + [dict(v, rings=rings, trace_each=True) for v in vs if v["host"] == "queued"]
     return vs
 
 
